@@ -305,6 +305,10 @@ Bge = make_jmp("bge", 0x6C)
 Blt = make_jmp("blt", 0x6D)
 Bgt = make_jmp("bgt", 0x6E)
 Ble = make_jmp("ble", 0x6F)
+Bhi = make_jmp("bhi", 0x62)  # unsigned >
+Bls = make_jmp("bls", 0x63)  # unsigned <=
+Bcc = make_jmp("bcc", 0x64)  # unsigned >= (carry clear)
+Bcs = make_jmp("bcs", 0x65)  # unsigned < (carry set)
 Bra = make_jmp("bra", 0x60)  # Unconditional branch
 Bsr = make_jmp("bsr", 0x61)  # Branch subroutine
 Cmpb = make_ea_dn("cmpb", 0b1011, opmode=0b000)
@@ -766,7 +770,7 @@ def cjmp_impl(context, op, yes_label, no_label):
 
 
 def cjmp_impl_unsigned(context, op, yes_label, no_label):
-    opnames = {"<": Blt, ">": Bgt, "==": Beq, "!=": Bne, "<=": Ble, ">=": Bge}
+    opnames = {"<": Bcs, ">": Bhi, "==": Beq, "!=": Bne, "<=": Bls, ">=": Bcc}
     Bop = opnames[op]
     jmp_ins = Bra(no_label.name, jumps=[no_label])
     context.emit(Bop(yes_label.name, jumps=[yes_label, jmp_ins]))
